@@ -17,6 +17,56 @@ def _fn(funcs, name):
     return hits[0]
 
 
+def _val(model, prefix):
+    for k, v in model.items():
+        if k.startswith(prefix + "_"):
+            return v
+    return None
+
+
+def native_trigger_new(model):
+    p = _val(model, "period")
+    if p is None:
+        return None
+    return ("""    let p: u64 = %du64;
+    let t = PeriodicTrigger::new(p);
+    let p1 = std::cmp::max(p, 1) as u128;
+    let scale = t.scale as u128;
+    let ceil = (u64::MAX as u128) / p1 + (((u64::MAX as u128) %% p1 > 0) as u128);
+    assert!(scale == ceil, "KV-C10: scale = ceil((2^64-1)/max(period,1)): got {} for period {}", scale, p);
+    assert!(p1 * scale >= u64::MAX as u128 && scale >= 1, "KV-C10: period*scale >= 2^64-1");""" % p)
+
+
+def native_reduce(model):
+    x, n = _val(model, "x"), _val(model, "n")
+    if x is None or n is None:
+        return None
+    return ("""    let (x, n): (u64, usize) = (%du64, %dusize);
+    let r = reduce(x, n);
+    assert!(r as u128 == ((n as u128) * (x as u128)) >> 64, "KV-C12: reduce = floor(n*x/2^64)");
+    assert!(if n > 0 { r < n } else { r == 0 }, "KV-C12: reduce(x,n) < n");""" % (x, n))
+
+
+def native_shard_ids(model):
+    h1, h2, ns = _val(model, "h1"), _val(model, "h2"), _val(model, "num_shards")
+    if None in (h1, h2, ns) or ns > (1 << 16):
+        return None
+    # expected values are computed here, independently (Python integers + hashlib)
+    import hashlib
+    exp = []
+    for key, h in ((b"kismet: primary shard mixer", h1), (b"kismet: secondary shard mixer", h2)):
+        d = hashlib.sha256(key).digest()
+        m = int.from_bytes(d[0:8], "little") | 1
+        a = int.from_bytes(d[8:16], "little")
+        exp.append((ns * ((h * m + a) % (1 << 64))) >> 64)
+    p, s = exp
+    if s == p:
+        s = s + 1 if s + 1 < ns else 0
+    return ("""    let c = Cache::new(std::path::PathBuf::from("/nonexistent"), %dusize, %dusize);
+    let got = c.shard_ids(Key::new("k", %du64, %du64));
+    assert!(got == (%dusize, %dusize), "KV-C12: shard_ids = documented mapping: got {:?}", got);""" % (ns, ns, h1, h2, p, s))
+
+
 def _panic_obligations(ex, prefix, assumptions, functions):
     obs = []
     for i, (desc, pc, cond, where) in enumerate(ex.obligations):
@@ -52,7 +102,8 @@ def c12_mapping(funcs, text):
         base = ex.range_asserts + pc
         obs.append(_witness("reduce path %d reachable with n > 0" % i, ex, pc + ["(> %s 0)" % n[1]], [f]))
         obs.append(Obligation("reduce(x,n) = floor(n*x / 2^64) [path %d]" % i, ex.decls, base,
-                              "(= %s (div (* %s %s) 18446744073709551616))" % (rv[1], n[1], x[1]), [f]))
+                              "(= %s (div (* %s %s) 18446744073709551616))" % (rv[1], n[1], x[1]), [f],
+                              native=("src/multiplicative_hash.rs", native_reduce)))
         obs.append(Obligation("reduce(x,n) < n for n > 0, = 0 for n = 0 [path %d]" % i, ex.decls, base,
                               "(ite (> %s 0) (and (<= 0 %s) (< %s %s)) (= %s 0))" % (n[1], rv[1], rv[1], n[1], rv[1]), [f],
                               note="integer encoding; the product is exact in u128"))
@@ -114,9 +165,11 @@ def c12_mapping(funcs, text):
         p, s = rv[1][0][1], rv[1][1][1]
         obs.append(Obligation("shard_ids = documented multiply-add-then-scale mapping with collision fix-up [path %d]" % i, ex.decls, base,
                               "(and (= %s %s) (= %s %s))" % (p, P, s, S2), [f],
-                              note="mixers symbolic (any multiplier/addend): the constants are pinned by the Kani harness c12_constants"))
+                              note="mixers symbolic (any multiplier/addend): the constants are pinned by the Kani harness c12_constants",
+                              native=("src/sharded.rs", native_shard_ids)))
         obs.append(Obligation("both shard indices are < n and distinct [path %d]" % i, ex.decls, base,
-                              "(and (<= 0 %s) (< %s %s) (<= 0 %s) (< %s %s) (not (= %s %s)))" % (p, p, ns[1], s, s, ns[1], p, s), [f]))
+                              "(and (<= 0 %s) (< %s %s) (<= 0 %s) (< %s %s) (not (= %s %s)))" % (p, p, ns[1], s, s, ns[1], p, s), [f],
+                              native=("src/sharded.rs", native_shard_ids)))
     models |= set(ex.models_used)
     inlined |= set(ex.inlined)
     return obs, dict(models=sorted(models), inlined=sorted(inlined | set(fnames)))
@@ -138,10 +191,11 @@ def c10_trigger(funcs, text):
         sc = rv[3][0][1]
         scales.append((pc, sc))
         obs.append(Obligation("scale = ceil((2^64-1)/max(period,1)) [path %d]" % i, ex.decls, ex.range_asserts + pc,
-                              "(= %s %s)" % (sc, CEIL), [f]))
+                              "(= %s %s)" % (sc, CEIL), [f], native=("src/trigger.rs", native_trigger_new)))
         obs.append(Obligation("period*scale >= 2^64-1 and scale >= 1 [path %d]" % i, ex.decls, ex.range_asserts + pc,
                               "(and (>= (* %s %s) 18446744073709551615) (>= %s 1))" % (P1, sc, sc), [f],
-                              note="the ceil (not floor) is what makes 'never more than period events' exact"))
+                              note="the ceil (not floor) is what makes 'never more than period events' exact",
+                              native=("src/trigger.rs", native_trigger_new)))
     models = set(ex.models_used)
     inlined = set(ex.inlined) | {f}
 
@@ -398,4 +452,163 @@ def c07_prune_glue(funcs, text):
     return obs, dict(models=sorted(ex.models_used), inlined=[f])
 
 
-UNITS = {"c12_mapping": c12_mapping, "c10_trigger": c10_trigger, "c07_prune_glue": c07_prune_glue}
+def native_requeue_chain(scratch):
+    """Native scenario for 'every reprieved entry is re-queued even when an earlier one vanished':
+    r0 (read, oldest) is a dangling symlink - listed by the scan, gone (ENOENT) when re-stamped;
+    r1 (read) must still move to the back of the queue; u (never read) is the victim."""
+    import os, shutil, time
+    from . import scenario
+    nat = getattr(scratch, "_native", None) or scenario.Native(scratch)
+    scratch._native = nat
+    nat.build()
+    bad = []
+    outs = {}
+    for profile in ("debug", "release"):
+        root = nat.sandbox()
+        try:
+            d = os.path.join(root, "w")
+            os.makedirs(d)
+            os.symlink(os.path.join(root, "nowhere"), os.path.join(d, "r0"))
+            os.utime(os.path.join(d, "r0"), ns=(2000 * 10**9, 1000 * 10**9), follow_symlinks=False)
+            for name, mt, at in (("r1", 1001, 2000), ("u", 1002, 900)):
+                pth = os.path.join(d, name)
+                open(pth, "w").write(name)
+                os.utime(pth, ns=(at * 10**9, mt * 10**9))
+            t0 = time.time()
+            r = nat.run(["prune", d, 2], profile=profile)
+            st = os.lstat(os.path.join(d, "r1"))
+            outs[profile] = r["out"]
+            if not (st.st_mtime >= t0 - 5 and st.st_atime < st.st_mtime):
+                bad.append("%s: r1 not re-queued (mtime=%d atime=%d)" % (profile, st.st_mtime, st.st_atime))
+        finally:
+            shutil.rmtree(root, ignore_errors=True)
+    return dict(reproduced=len(bad) == 2, detail="; ".join(bad) or "r1 was re-queued natively", outputs=outs,
+                signature=dict(op="prune", what="a reprieved entry is skipped after an earlier reprieved entry vanished"))
+
+
+# ---------------------------------------------------------------------------------------------
+MAX_PLAN = 2  # entries per list (to_evict, to_move_back)
+
+
+def c07_apply_glue(funcs, text):
+    """raw_cache::apply_update performs exactly the plan: one ensure_file_removed per victim and one
+    move_to_back_of_list per reprieved entry, each on the path <dir>/<that entry's name> (the shared
+    path buffer is pushed and popped around every call on every continuing path), in plan order;
+    absent-file errors of the re-queue step are skipped, every other error is returned unchanged.
+    Callees are uninterpreted; lists of up to MAX_PLAN entries each (bounded unrolling of the two loops)."""
+    f = _fn(funcs, "apply_update")
+    log = []   # (kind, path components, entry id, pc)
+
+    def m_into_iter(ex, args, pc):
+        v = args[0]
+        return [([], ("adt", "IntoIter", 0, {0: ("opaque", v[1], "list"), 1: ("int", "0", 64, False)}))]
+
+    def m_next(ex, args, pc):
+        it = ex.project(args[0], ("deref",))
+        lst, pos = it[3][0][1], int(it[3][1][1])
+        more = ex.fresh_bool("more_%s_%d" % (lst, pos))
+        outs = [(["(not %s)" % more[1]], ("adt", "Option", 0, {}))]  # None: the list had exactly `pos` entries
+        if pos < MAX_PLAN:
+            ent = ("adt", "CachedFile", 0, {0: ("opaque", "%s_entry%d" % (lst, pos), "DirEntry"), 1: ("opaque", "0", "mtime"), 2: ("opaque", "0", "flag")})
+            newit = ("adt", "IntoIter", 0, {0: it[3][0], 1: ("int", str(pos + 1), 64, False)})
+            # iterator state lives behind the &mut: write it back
+            ref = args[0]
+            outs.append(([more[1]], ("adt", "Option", 1, {0: ent}), ref, newit))
+        return outs
+
+    def m_file_name(ex, args, pc):
+        d = ex.project(args[0], ("deref",))
+        return [([], ("opaque", "name_of_" + d[1], "OsString"))]
+
+    def m_push(ex, args, pc):
+        ref, name = args
+        cur = ref[1][0]
+        comps = list(cur[3][0][1]) if cur[0] == "adt" else []
+        ref[1][0] = ("adt", "PathBuf", 0, {0: ("tuple", comps + [name])})
+        return [([], ("tuple", []))]
+
+    def m_pop(ex, args, pc):
+        ref = args[0]
+        cur = ref[1][0]
+        comps = list(cur[3][0][1])
+        ref[1][0] = ("adt", "PathBuf", 0, {0: ("tuple", comps[:-1])})
+        return [([], ("bool", "true"))]
+
+    def call_model(kind):
+        def m(ex, args, pc):
+            path = ex.project(args[0], ("deref",)) if args[0][0] == "ref" else args[0]
+            comps = [c[1] for c in path[3][0][1]]
+            n = next(ex.counter)
+            okb = ex.fresh_bool("%s_ok" % kind)
+            errv = ("opaque", "err_%s_%d" % (kind, n), "io::Error")
+            log.append((kind, comps, list(pc), errv[1]))
+            return [([okb[1]], ("adt", "Result", 0, {0: ("tuple", [])})),
+                    (["(not %s)" % okb[1]], ("adt", "Result", 1, {0: errv}))]
+        return m
+
+    def m_is_absent(ex, args, pc):
+        b = ex.fresh_bool("absent")
+        return [([b[1]], ("bool", "true")), (["(not %s)" % b[1]], ("bool", "false"))]
+
+    ex = _fresh_executor(funcs, inline=lambda name: False, models={
+        r"<Vec<CachedFile> as IntoIterator>::into_iter$": m_into_iter,
+        r"<std::vec::IntoIter<CachedFile> as Iterator>::next$": m_next,
+        r"DirEntry::file_name$": m_file_name,
+        r"PathBuf::push::<OsString>$": m_push,
+        r"PathBuf::pop$": m_pop,
+        r"<PathBuf as Deref>::deref$": m_deref_identity,
+        r"^ensure_file_removed$": call_model("remove"),
+        r"^move_to_back_of_list$": call_model("requeue"),
+        r"^is_absent_file_error$": m_is_absent,
+        r"as Try>::branch$": m_try_branch,
+        r"as FromResidual<.*>>::from_residual$": m_from_residual,
+    })
+    ex.try_info = {}
+    dirv = ("adt", "PathBuf", 0, {0: ("tuple", [("opaque", "DIR", "component")])})
+    upd = ("adt", "Update", 0, {0: ("opaque", "evict", "Vec"), 1: ("opaque", "moveback", "Vec")})
+    res = ex.run(f, [dirv, upd])
+    obs = []
+
+    def verdict(ok, msg):
+        return Obligation(msg, [], [], "true" if ok else "false", [f], note="structural check on the executed MIR paths",
+                          native_py=native_requeue_chain)
+
+    n_ok = 0
+    bad = []
+    for (pc, rv, env) in res:
+        mine = [c for c in log if c[2] == pc[:len(c[2])]]
+        # expected: remove evict_entry0.., then requeue moveback_entry0.., each on [DIR, name_of_<entry>]
+        ei = mi = 0
+        for (kind, comps, _pc, errname) in mine:
+            if kind == "remove":
+                want = ["DIR", "name_of_evict_entry%d" % ei]
+                ei += 1
+                if mi != 0:
+                    bad.append("a victim is removed after re-queueing started")
+            else:
+                want = ["DIR", "name_of_moveback_entry%d" % mi]
+                mi += 1
+            if comps != want:
+                bad.append("call %s on path %r, expected %r" % (kind, comps, want))
+        if rv[0] == "adt" and rv[1] == "Result" and rv[2] == 0:
+            n_ok += 1
+        elif rv[0] == "adt" and rv[1] == "Result" and rv[2] == 1:
+            last = mine[-1] if mine else None
+            if last is None or rv[3][0][1] != last[3]:
+                bad.append("an error is returned that is not the failing step's own error")
+    obs.append(verdict(not bad, "apply_update: every step acts on <dir>/<name of that plan entry>, victims first, in plan order; errors are returned unchanged"
+                       + ("" if not bad else " -- " + "; ".join(sorted(set(bad))[:3]))))
+    # completeness: for every pair of list lengths (a, b) <= MAX_PLAN there is an Ok path with exactly a removals and b re-queues
+    shapes = set()
+    for (pc, rv, env) in res:
+        if rv[0] == "adt" and rv[1] == "Result" and rv[2] == 0:
+            mine = [c for c in log if c[2] == pc[:len(c[2])]]
+            shapes.add((sum(1 for c in mine if c[0] == "remove"), sum(1 for c in mine if c[0] == "requeue")))
+    want = {(a, b) for a in range(MAX_PLAN + 1) for b in range(MAX_PLAN + 1)}
+    obs.append(verdict(want <= shapes, "apply_update: on success every victim was removed and every reprieved entry re-queued (plans up to %d+%d entries)" % (MAX_PLAN, MAX_PLAN)))
+    obs.append(Obligation("witness: apply_update paths explored", [], [], "false", [f], expect="sat", note="%d paths, %d successful" % (len(res), n_ok)))
+    obs += _panic_obligations(ex, "apply_update never panics", [], [f])
+    return obs, dict(models=sorted(ex.models_used), inlined=[f])
+
+
+UNITS = {"c07_apply_glue": c07_apply_glue, "c12_mapping": c12_mapping, "c10_trigger": c10_trigger, "c07_prune_glue": c07_prune_glue}
